@@ -47,7 +47,6 @@ ALLOWED = {"S": {"client.py"}, "E": {"client.py", "__init__.py", "operations.py"
            "N": {"__init__.py"}, "I": set()}
 
 
-CUSTOM_OPS = "C15-forward-refs-custom-operations"
 E_SHADOW = "C15-extract-constant-shadowed"
 N_CUSTOM = "C15-no-reimports-custom-operations"
 
@@ -438,13 +437,7 @@ def _check_case(case, plans, ev):
         # ---------------------------------------------------------------- generation
         if not g.ok:
             ev.append(("count", 1))
-            exc = g.res.get("exc") or ["", ""]
-            if ("F" in cfg and sc.config.get("enable_custom_operations") and exc[0].endswith("KeyError")
-                    and "self" in exc[1]):
-                ev.append(("finding", CUSTOM_OPS, f"generation with plugins {cfg!r} and enable_custom_operations fails: {exc}",
-                           replay_of(case, cfg, exc=exc, tb=g.res.get("tb"))))
-                ev.append(("dist", "finding_inputs", "custom-operations+ClientForwardRefs"))
-                continue
+            # (finding C15-forward-refs-custom-operations — KeyError: 'self' — is fixed by /repo 91a5368)
             ev.append(("violation", f"generation with plugins {cfg!r} fails ({g.res.get('exc')}) while the unplugged one succeeds",
                        replay_of(case, cfg, exc=g.res.get("exc"), tb=g.res.get("tb")), True))
             continue
